@@ -239,13 +239,13 @@ class Bus (objects.DBusObject):
             elif mt == 4:
                 self.signalReceived(p, msg)
 
-            if (
-                    msg.destination
-                    and not msg.destination == 'org.freedesktop.DBus'
-            ):
-                self.sendMessage(msg)
-
-            self.router.routeMessage(msg)
+            # an addressed message goes to the owner of the destination only;
+            # the match rules select the receivers of broadcasts
+            if msg.destination:
+                if not msg.destination == 'org.freedesktop.DBus':
+                    self.sendMessage(msg)
+            else:
+                self.router.routeMessage(msg)
         except DError as e:
             sig = None
             body = None
